@@ -298,6 +298,11 @@ func (d *Driver) runInstance(in *Instance) *InstanceResult {
 	solver := in.H.Solver
 	if solver == "" {
 		solver = "z3"
+		// GOSYM_SOLVER re-decides a check with another back end (z3-new, cvc5) for the cross-solver comparison
+		// of tools/solver_diff.sh; registered commands never set it
+		if s := os.Getenv("GOSYM_SOLVER"); s != "" {
+			solver = s
+		}
 	}
 	ex, err := NewExec(d.prog, opt, solver, timeout)
 	if err != nil {
